@@ -4,7 +4,7 @@ import ast
 from typing import Dict, List, Optional, Set, Tuple
 
 from ..index import Repo, ClassInfo, AnchorError
-from ..astutil import is_abstract, unparse, call_name, walk_no_nested
+from ..astutil import is_abstract, unparse, call_name, walk_no_nested, func_params
 from ..cfg import path_of
 
 EXP_SAMPLER = "cuqi/experimental/mcmc/_sampler.py:Sampler"
@@ -303,3 +303,196 @@ def assigned_values(repo: Repo, ci, fn, target_path: str, stop=frozenset()):
         if n.kind == "stmt" and isinstance(n.ast, ast.Assign) and any(path_of(t) == target_path for t in n.ast.targets):
             out.append(norm(ex.expand(n.ast.value, n, stop=stop)))
     return out
+
+
+class KwCanon(ast.NodeTransformer):
+    """calls of known callables (`self.m(a, b, k=c)` for methods of one class, `Cls(a, k=c)` for constructors) rewritten to the all-keyword form
+    `f(p1=a, p2=b, k=c, <defaults>)` sorted by parameter name: positional/keyword spelling and omitted defaults do not distinguish two calls"""
+
+    def __init__(self, repo: Repo = None, ci=None, methods=()):
+        self.sig = {}
+        for m in methods:
+            try:
+                f = repo.method(ci, m)[1]
+            except Exception:
+                continue
+            self.add(f"self.{m}", f)
+
+    def add(self, name: str, f, skip_first=True):
+        a = f.args
+        if a.vararg or a.kwarg or a.posonlyargs:
+            return self
+        ps = [x.arg for x in a.args][1 if skip_first else 0:]
+        dfl = dict(zip(reversed(ps), reversed(a.defaults)))
+        npos = len(ps)
+        for k_, d_ in zip(a.kwonlyargs, a.kw_defaults):
+            ps.append(k_.arg)
+            if d_ is not None:
+                dfl[k_.arg] = d_
+        self.sig[name] = (ps, dfl, npos)
+        return self
+
+    def visit_Call(self, n):
+        self.generic_visit(n)
+        cn = call_name(n)
+        if cn in self.sig:
+            ps, dfl, npos = self.sig[cn]
+            if any(isinstance(a, ast.Starred) for a in n.args) or any(k.arg is None for k in n.keywords) or len(n.args) > npos:
+                return n
+            b = dict(zip(ps, n.args))
+            for k in n.keywords:
+                if k.arg in b or k.arg not in ps:
+                    return n
+                b[k.arg] = k.value
+            for p_ in ps:
+                if p_ not in b:
+                    if p_ not in dfl:
+                        return n
+                    b[p_] = dfl[p_]
+            return ast.copy_location(ast.Call(func=n.func, args=[], keywords=[ast.keyword(arg=p_, value=b[p_]) for p_ in sorted(b)]), n)
+        return n
+
+
+def model_gradient_table(repo: Repo, model, fn_src):
+    """Model.gradient as a decision table over `hasattr(self.domain_geometry, 'gradient')`: {True/False: normalised text of the returned expression
+    with every local replaced by what it was bound to on that path and the conversion calls in all-keyword form} or (None, reason)"""
+    from ..pathtable import walk
+    from ..pattern import norm as pn
+    fn = canon_fn(repo, model, fn_src, 1)
+    kc = KwCanon(repo, model, ["_2par", "_2fun", "_gradient_func"])
+    atom = pn("hasattr(self.domain_geometry,'gradient')")
+    out = {}
+    for val in (True, False):
+        kind, res = walk(fn, {atom: val}, pn)
+        if kind != "return":
+            return None, f"path [{atom}={val}] ends in {kind}: {res if isinstance(res, str) else ''}"
+        out[val] = pn(kc.visit(clone_(res)))
+    return out, kc
+
+
+def clone_(e):
+    import copy
+    return copy.deepcopy(e)
+
+
+def model_gradient_expected(repo, model, fn_src, kc):
+    from ..pattern import norm as pn
+    P = func_params(fn_src)
+    d, w, dp, wp = P[1:5]
+    D = f"self._2fun({d},self.range_geometry,is_par={dp})"
+    W = f"self._2fun({w},self.domain_geometry,is_par={wp})"
+    WP = f"self._2par({w},geometry=self.domain_geometry,is_par={wp},to_CUQIarray=False)"
+    raw = f"self._gradient_func({D},{W})"
+    wrap = f"type({d}) is CUQIarray"
+    exp = {True: f"self._2par(self.domain_geometry.gradient({raw},{WP}),self.domain_geometry,to_CUQIarray={wrap},is_par=True)",
+           False: f"self._2par({raw},self.domain_geometry,to_CUQIarray={wrap},is_par=False)"}
+    from ..canon import _SymOrder
+    return {k: pn(_SymOrder().visit(kc.visit(ast.parse(v, mode="eval").body))) for k, v in exp.items()}
+
+
+OTHER = "<any other value>"
+
+
+def _lit_test(e, var: str):
+    """a test on the string-valued variable `var` -> (set of literals, True if the test holds exactly on that set / False if exactly off it) or None"""
+    if isinstance(e, ast.UnaryOp) and isinstance(e.op, ast.Not):
+        r = _lit_test(e.operand, var)
+        return None if r is None else (r[0], not r[1])
+    if isinstance(e, ast.Compare) and len(e.ops) == 1:
+        l, r, op = e.left, e.comparators[0], e.ops[0]
+        def isvar(x):
+            p = path_of(x)
+            return p == var or (isinstance(x, ast.Call) and isinstance(x.func, ast.Attribute) and x.func.attr in ("lower", "strip") and path_of(x.func.value) == var and False)
+        def lit(x):
+            return isinstance(x, ast.Constant) and isinstance(x.value, (str, int, bool, type(None)))
+        if isinstance(op, (ast.Eq, ast.NotEq, ast.Is, ast.IsNot)):
+            if isvar(l) and lit(r):
+                return ({r.value}, isinstance(op, (ast.Eq, ast.Is)))
+            if isvar(r) and lit(l):
+                return ({l.value}, isinstance(op, (ast.Eq, ast.Is)))
+        if isinstance(op, (ast.In, ast.NotIn)) and isvar(l) and isinstance(r, (ast.Tuple, ast.List, ast.Set)) and all(lit(x) for x in r.elts):
+            return ({x.value for x in r.elts}, isinstance(op, ast.In))
+    return None
+
+
+def case_domain(g, var: str):
+    """all literals `var` is compared with in the function, plus OTHER"""
+    dom = []
+    for t in g.tests():
+        r = _lit_test(t.ast, var)
+        if r is not None:
+            for v in sorted(r[0], key=repr):
+                if v not in dom:
+                    dom.append(v)
+    return dom + [OTHER]
+
+
+def cases_reaching(g, node, var: str, domain=None):
+    """the values of `var` (literals it is compared with, and OTHER) under which `node` can execute: for each value the out-edges of the tests on `var`
+    that the value makes impossible are removed and reachability from the entry is recomputed (path-sensitive in `var`, insensitive in everything else;
+    `var` must not be re-assigned in the function)"""
+    domain = domain if domain is not None else case_domain(g, var)
+    out = []
+    for v in domain:
+        avoid = set()
+        for t in g.tests():
+            r = _lit_test(t.ast, var)
+            if r is None:
+                continue
+            lits, pos = r
+            holds = ((v in lits) if v is not OTHER else False)
+            truth = holds if pos else not holds
+            avoid.add((t.id, "F" if truth else "T"))
+        if node.id in g.reachable_from([g.entry.id], avoid_edges=avoid):
+            out.append(v)
+    return out
+
+
+
+def closed_outcomes(repo: Repo, ci, fn, level=1, valuation=None, project=None, kc=None):
+    """the set of (kind, text) outcomes of a function over all its paths: each returned expression has the locals replaced by what they were bound to on
+    the path (closed in the parameters and self), tests that are not decided by `valuation` are explored both ways. Loops on a path -> ('loop', None)."""
+    from ..pathtable import walk_all
+    from ..pattern import norm as pn
+    v = canon_fn(repo, ci, fn, level)
+    proj = project
+    if kc is not None:
+        proj = (lambda e: kc.visit(clone_(project(e) if project else e)))
+    return walk_all(v, dict(valuation or {}), pn, project=proj)
+
+
+def expected_text(src: str, kc=None) -> str:
+    """normal-form text of an expression given as source (same normalisation as the views: symmetric operand order, keyword form)"""
+    from ..pattern import norm as pn
+    from ..canon import _SymOrder, nnf
+    e = ast.parse(src, mode="eval").body
+    if kc is not None:
+        e = kc.visit(e)
+    return pn(_SymOrder().visit(e))
+
+
+def case_valuation(fn, var: str, value):
+    """valuation for sa.pathtable.walk that decides every test of `fn` on the literal-valued variable `var` as `var == value` (OTHER: none of the literals)"""
+    from ..pathtable import _strip_not
+    from ..pattern import norm as pn
+    from ..cfg import CFG
+    val = {}
+    for t in CFG(fn).tests():
+        core, _ = _strip_not(t.ast)
+        r = _lit_test(core, var)
+        if r is None:
+            continue
+        lits, pos = r
+        holds = (value in lits) if value is not OTHER else False
+        val[pn(core)] = holds if pos else not holds
+    return val
+
+
+def closed_is(repo: Repo, ci, fn, *alternatives, kc=None, allow_raise=False, level=1):
+    """(holds, outcomes): the function returns, on every path, one closed expression equal to one of the alternatives (source text)"""
+    outs = closed_outcomes(repo, ci, fn, kc=kc, level=level)
+    want = {expected_text(a, kc) for a in alternatives}
+    rets = {t for k, t in outs if k == "return"}
+    others = {k for k, t in outs if k != "return"}
+    ok = len(rets) == 1 and rets <= want and (not others or (allow_raise and others == {"raise"}))
+    return ok, sorted(outs, key=str)
